@@ -216,7 +216,7 @@ func c09LessTable(c *Ctx, p *Prog, lessFn *ssa.Function, idxF *types.Var, R stri
 	start := loopBodyStart(lp)
 	// small loop-free helpers of the package (a bounds-checked element accessor) are evaluated in place
 	outs, why := e6Enumerate(func() *e6Interp {
-		return &e6Interp{Inline: func(f *ssa.Function) bool {
+		return &e6Interp{CanonCmp: true, Inline: func(f *ssa.Function) bool {
 			return f.Pkg == lessFn.Pkg && f != lessFn && f.Parent() == nil && f.Signature.Recv() == nil && len(naturalLoops(f)) == 0 && len(f.Blocks) <= 6
 		}}
 	}, start, lp.Header, iterStop(lp, start), 512)
